@@ -122,7 +122,7 @@ def main(argv):
             n = int(24000 * a.scale)
         else:
             cfgs = (a.configs.split(",") if a.configs else ALL_CONFIGS)
-            n = int(1000000 * a.scale)
+            n = int(2000000 * a.scale)
         exes = build_many(cfgs)
         m = run_sharded("c14", "gen", (n // NCPU + 1,), [(c, exes[c]) for c in cfgs], a.seed, timeout=3600)
         rep.merge(m)
